@@ -31,22 +31,14 @@ let () =
         incr progs; target := tg; snap := parse_kvs sn; yst := ybuf_empty; pst := pbuf_empty []; snap_seq := None; Hashtbl.reset cps
     | "M" :: pid :: dir :: ds :: ss :: fd :: fs :: "=>" :: res :: _ ->
         (* UnionIter driven directly: the model's cursor machine on the same two lists *)
-        let m = union_iter (dir = "rev") (parse_kvs ds) (parse_kvs ss) in
+        let (l, errd) = union_iter_f (dir = "rev") (nat_of_int (int_of_string fd)) (nat_of_int (int_of_string fs)) (parse_kvs ds) (parse_kvs ss) in
+        let m = l in
         incr n; incr progs; bump ("merge:" ^ dir);
-        let ok =
-          if fd = "0" && fs = "0" then kvs_string m = res
-          else begin
-            (* an inner iterator failed: what was yielded is a prefix of the merge, the error is reported unless the
-               failure position was never reached *)
-            let errd = String.length res >= 4 && String.sub res (String.length res - 4) 4 = "|err" in
-            let body = if errd then String.sub res 0 (String.length res - 4) else res in
-            let got = parse_kvs body in
-            let rec prefix a b = match a, b with [], _ -> true | x :: a', y :: b' -> x = y && prefix a' b' | _ -> false in
-            prefix got m && (errd || got = m)
-          end in
+        (* exact prediction: the yielded entries and whether (and hence where) the inner iterator's error surfaced *)
+        let ok = (kvs_string l ^ (if errd then "|err" else "")) = res in
         if not ok then begin
           incr mism;
-          if !mism <= 50 then print_endline ("MISMATCH\t" ^ pid ^ "\t0\tmerge\timpl=" ^ res ^ "\tmodel=" ^ kvs_string m)
+          if !mism <= 50 then print_endline ("MISMATCH\t" ^ pid ^ "\t0\tmerge\timpl=" ^ res ^ "\tmodel=" ^ kvs_string m ^ (if errd then "|err" else ""))
         end
     | "O" :: pid :: idx :: kind :: rest ->
         let rec split acc l = match l with "=>" :: r -> (List.rev acc, r) | x :: r -> split (x :: acc) r | [] -> (List.rev acc, []) in
